@@ -26,7 +26,10 @@ Plain == {
   M("m7", "m7", "m7", "m7Response", "out_bare", <<>>, <<>>, <<>>, "", "str_bool"),
   M("m8", "m8", "m8", "m8Response", "wrapped", <<>>, <<>>, <<>>, "", "other_other"),
   \* a custom request message name together with TWO response headers (one combined header message per method)
-  M("m9", "m9", "M9In", "m9Response", "wrapped", <<"Quota">>, <<"Session", "Quota">>, <<>>, "", "int_int") }
+  M("m9", "m9", "M9In", "m9Response", "wrapped", <<"Quota">>, <<"Session", "Quota">>, <<>>, "", "int_int"),
+  \* a class tree three levels deep (Shape <- Rect <- Square), the signature names the top class only and the protocols are
+  \* polymorphic: every class the server may name in a type marker is a declared type of the document
+  M("m10", "m10", "m10", "m10Response", "wrapped", <<>>, <<>>, <<>>, "", "shape_square") }
 Ported == { M("p1", "p1", "p1", "p1Response", "wrapped", <<>>, <<>>, <<>>, "PT1", "int_int"),
             M("p2", "p2", "p2", "p2Response", "wrapped", <<>>, <<>>, <<>>, "PT2", "int_int"),
             M("p3", "p3", "p3", "p3Response", "wrapped", <<>>, <<>>, <<"LimitFault">>, "PT1", "int_int") }
